@@ -97,13 +97,102 @@ var _ core.Sender = (*c13Sender)(nil)
 
 var c13TS = time.Date(2025, 2, 2, 0, 0, 0, 0, time.UTC)
 
-// c13Block makes a block with the given parent hash and view; salt separates equivocating blocks.
-func c13Block(parent hotstuff.Hash, view uint64, salt int) *hotstuff.Block {
-	b := hotstuff.NewBlock(parent, hotstuff.QuorumCert{},
+// ---------------------------------------------------------------------------------------------
+// Certificate links are chosen independently of parent links: the quorum certificate a block
+// carries names its parent, an ancestor further up, a block on another branch (possibly with a
+// higher view), genesis, a hash nobody has, or nothing. The store must answer from PARENT links
+// only. (A block cannot certify itself: its hash covers its certificate.)
+var (
+	c13Pool []*hotstuff.Block // blocks of the universe under construction (possible certificate targets)
+	c13Tag  uint64
+)
+
+func c13NewUniverse(tag uint64) {
+	c13Pool = []*hotstuff.Block{hotstuff.GetGenesis()}
+	c13Tag = tag
+}
+
+func c13Mix(x uint64) uint64 {
+	x += 0x9e3779b97f4a7c15
+	x = (x ^ (x >> 30)) * 0xbf58476d1ce4e5b9
+	x = (x ^ (x >> 27)) * 0x94d049bb133111eb
+	return x ^ (x >> 31)
+}
+
+func c13Tagged(s string) uint64 {
+	h := uint64(1469598103934665603)
+	for i := 0; i < len(s); i++ {
+		h = (h ^ uint64(s[i])) * 1099511628211
+	}
+	return h
+}
+
+func c13CertOf(b *hotstuff.Block) hotstuff.QuorumCert {
+	return hotstuff.NewQuorumCert(nil, b.View(), b.Hash())
+}
+
+// c13CertFor picks the certificate of a new block, deterministically from the universe tag.
+func c13CertFor(parent hotstuff.Hash, view uint64, salt int) hotstuff.QuorumCert {
+	if c13Pool == nil {
+		c13NewUniverse(0)
+	}
+	r := c13Mix(c13Tag ^ c13Mix(uint64(salt)+uint64(len(c13Pool))<<20) ^ c13Mix(view) ^ uint64(parent[3])<<8 ^ uint64(parent[7]))
+	find := func(h hotstuff.Hash) *hotstuff.Block {
+		for _, x := range c13Pool {
+			if x.Hash() == h {
+				return x
+			}
+		}
+		return nil
+	}
+	any := c13Pool[int((r>>8)%uint64(len(c13Pool)))]
+	switch r % 16 {
+	case 0, 1, 2: // the parent, as an honest proposer does
+		if p := find(parent); p != nil {
+			return c13CertOf(p)
+		}
+		return hotstuff.NewQuorumCert(nil, hotstuff.View(view-1), parent)
+	case 3: // an ancestor further up
+		if p := find(parent); p != nil {
+			if gp := find(p.Parent()); gp != nil {
+				return c13CertOf(gp)
+			}
+		}
+		return c13CertOf(c13Pool[0])
+	case 4, 5, 6, 7, 8, 9, 10: // any block made so far: another branch, same or higher view, genesis
+		return c13CertOf(any)
+	case 11: // the block with the highest view so far
+		top := c13Pool[0]
+		for _, x := range c13Pool {
+			if x.View() > top.View() {
+				top = x
+			}
+		}
+		return c13CertOf(top)
+	case 12: // a hash nobody has
+		return hotstuff.NewQuorumCert(nil, hotstuff.View(view), c13Missing(200+salt%50))
+	case 13: // right block, wrong view label
+		return hotstuff.NewQuorumCert(nil, any.View()+1, any.Hash())
+	case 14: // no certificate at all
+		return hotstuff.QuorumCert{}
+	default: // genesis
+		return c13CertOf(c13Pool[0])
+	}
+}
+
+func c13BlockQC(parent hotstuff.Hash, view uint64, salt int, qc hotstuff.QuorumCert) *hotstuff.Block {
+	b := hotstuff.NewBlock(parent, qc,
 		&clientpb.Batch{Commands: []*clientpb.Command{{ClientID: uint32(salt), SequenceNumber: uint64(salt)}}},
 		hotstuff.View(view), hotstuff.ID(1+salt%4))
 	b.SetTimestamp(c13TS)
+	c13Pool = append(c13Pool, b)
 	return b
+}
+
+// c13Block makes a block with the given parent hash and view; salt separates equivocating blocks.
+// Its certificate is chosen by c13CertFor, independently of the parent.
+func c13Block(parent hotstuff.Hash, view uint64, salt int) *hotstuff.Block {
+	return c13BlockQC(parent, view, salt, c13CertFor(parent, view, salt))
 }
 
 func c13Missing(i int) hotstuff.Hash {
@@ -866,6 +955,27 @@ func (e *c13Env) runCase(kind, key string, nontrivial, sample bool, prog func(c 
 type c13Forest struct {
 	views []uint64
 	par   []int
+	// cert[i]: the block named by block i+1's certificate: 0 = genesis, j>0 = block j (made earlier),
+	// -1 = a hash nobody has. nil = chosen by c13CertFor from the forest's tag.
+	cert []int
+}
+
+// c13EnumCerts calls g with every certificate assignment for the forest.
+func c13EnumCerts(f c13Forest, g func(c13Forest)) {
+	n := len(f.views)
+	cert := make([]int, n)
+	var rec func(i int)
+	rec = func(i int) {
+		if i == n {
+			g(c13Forest{f.views, f.par, append([]int(nil), cert...)})
+			return
+		}
+		for q := -1; q <= i; q++ {
+			cert[i] = q
+			rec(i + 1)
+		}
+	}
+	rec(0)
 }
 
 func c13EnumForests(n int, maxView uint64, f func(c13Forest)) {
@@ -874,7 +984,7 @@ func c13EnumForests(n int, maxView uint64, f func(c13Forest)) {
 	var recPar func(i int)
 	recPar = func(i int) {
 		if i == n {
-			f(c13Forest{append([]uint64(nil), views...), append([]int(nil), par...)})
+			f(c13Forest{views: append([]uint64(nil), views...), par: append([]int(nil), par...)})
 			return
 		}
 		for p := -1; p <= i; p++ {
@@ -903,6 +1013,7 @@ func c13EnumForests(n int, maxView uint64, f func(c13Forest)) {
 func (f c13Forest) build() []*hotstuff.Block {
 	bs := make([]*hotstuff.Block, len(f.views)+1)
 	bs[0] = hotstuff.GetGenesis()
+	c13NewUniverse(c13Tagged(f.key()))
 	for i := range f.views {
 		var ph hotstuff.Hash
 		switch {
@@ -911,12 +1022,19 @@ func (f c13Forest) build() []*hotstuff.Block {
 		default:
 			ph = bs[f.par[i]].Hash()
 		}
-		bs[i+1] = c13Block(ph, f.views[i], i+1)
+		switch {
+		case f.cert == nil:
+			bs[i+1] = c13Block(ph, f.views[i], i+1)
+		case f.cert[i] < 0:
+			bs[i+1] = c13BlockQC(ph, f.views[i], i+1, hotstuff.NewQuorumCert(nil, hotstuff.View(f.views[i]-1), c13Missing(100+i)))
+		default:
+			bs[i+1] = c13BlockQC(ph, f.views[i], i+1, c13CertOf(bs[f.cert[i]]))
+		}
 	}
 	return bs
 }
 
-func (f c13Forest) key() string { return fmt.Sprint(f.views, f.par) }
+func (f c13Forest) key() string { return fmt.Sprint(f.views, f.par, f.cert) }
 
 // interesting: a fork, an equivocation (two blocks in one view) or a missing ancestor
 func (f c13Forest) interesting(mask int) bool {
@@ -973,30 +1091,38 @@ func TestVerifC13(t *testing.T) {
 	// ---- stream "forest": Extends on every small forest, every (block, target) pair, no peers
 	maxN := v.Pick(4, 5)
 	maxView := uint64(v.Pick(4, 4))
-	forestStride := v.Pick(97, 389)
+	forestStride := v.Pick(577, 1999)
 	cnt := 0
 	for n := 1; n <= maxN; n++ {
-		c13EnumForests(n, maxView, func(f c13Forest) {
-			bs := f.build()
-			for mask := 0; mask < 1<<n; mask++ {
-				if n == maxN && n >= 4 && mask != (1<<n)-1 && bitsSet(mask) < n-1 {
-					continue // largest size: at most one hole
-				}
-				cnt++
-				key := fmt.Sprintf("forest %s mask=%d", f.key(), mask)
-				env.runCase("forest", key, f.interesting(mask), cnt%forestStride == 0, func(c *c13Case) {
-					for i := 1; i <= n; i++ {
-						if mask&(1<<(i-1)) != 0 {
-							c.Store(bs[i])
-						}
-					}
-					for _, b := range bs {
-						for _, tg := range bs {
-							c.Extends(b, tg, nil)
-						}
-					}
-				})
+		c13EnumForests(n, maxView, func(f0 c13Forest) {
+			// certificate links: every assignment for up to 3 blocks (the certificate of a block names
+			// genesis, any block made before it, or a hash nobody has), a drawn one for larger forests
+			withCerts := func(g func(c13Forest)) { g(f0) }
+			if n <= 3 {
+				withCerts = func(g func(c13Forest)) { c13EnumCerts(f0, g) }
 			}
+			withCerts(func(f c13Forest) {
+				bs := f.build()
+				for mask := 0; mask < 1<<n; mask++ {
+					if n == maxN && n >= 4 && mask != (1<<n)-1 && bitsSet(mask) < n-1 {
+						continue // largest size: at most one hole
+					}
+					cnt++
+					key := fmt.Sprintf("forest %s mask=%d", f.key(), mask)
+					env.runCase("forest", key, f.interesting(mask), cnt%forestStride == 0, func(c *c13Case) {
+						for i := 1; i <= n; i++ {
+							if mask&(1<<(i-1)) != 0 {
+								c.Store(bs[i])
+							}
+						}
+						for _, b := range bs {
+							for _, tg := range bs {
+								c.Extends(b, tg, nil)
+							}
+						}
+					})
+				}
+			})
 		})
 	}
 	v.CountN("forest_stores", cnt)
@@ -1052,7 +1178,8 @@ func TestVerifC13(t *testing.T) {
 
 	// ---- stream "inflight": a block is stored (or fetched by a second Get) while a fetch for it is
 	// pending, and the pending fetch still succeeds; later the block is abandoned or committed
-	{
+	for uv := 0; uv < 2; uv++ {
+		c13NewUniverse(uint64(7000 + uv))
 		g := hotstuff.GetGenesis()
 		a := c13Block(g.Hash(), 1, 1)
 		b := c13Block(a.Hash(), 2, 2)
@@ -1064,7 +1191,7 @@ func TestVerifC13(t *testing.T) {
 		for ti, tg := range []*hotstuff.Block{x, b, y, z, cc} {
 			for mode := 0; mode < 6; mode++ {
 				for order := 0; order < 3; order++ {
-					key := fmt.Sprintf("inflight target=%d mode=%d order=%d", ti, mode, order)
+					key := fmt.Sprintf("inflight certs=%d target=%d mode=%d order=%d", uv, ti, mode, order)
 					env.runCase("inflight", key, true, true, func(c *c13Case) {
 						c.Store(a)
 						others := []*hotstuff.Block{b, cc, x, y, z}
@@ -1107,6 +1234,11 @@ func TestVerifC13(t *testing.T) {
 						c.Store(b)
 						c.Store(cc)
 						c.Extends(cc, tg, nil)
+						for _, p := range []*hotstuff.Block{a, b, cc, x, y, z} {
+							for _, q := range []*hotstuff.Block{g, a, b, cc, x, y, z} {
+								c.Extends(p, q, nil)
+							}
+						}
 						c.Prune(b, 2)
 						c.StoreAgain(tg)
 						c.Prune(cc, 3)
@@ -1186,20 +1318,30 @@ func TestVerifC13(t *testing.T) {
 	// (retry), then nothing is needed any more
 	dp := 0
 	dpStride := v.Pick(3, 1)
-	for d := 2; d <= v.Pick(5, 6); d++ {
+	for dcv := 2 * 3; dcv < (v.Pick(5, 6)+1)*3; dcv++ {
+		d, cv := dcv/3, dcv%3
+		c13NewUniverse(uint64(1000 + dcv)) // three certificate assignments per depth
 		chain := []*hotstuff.Block{hotstuff.GetGenesis()}
 		for i := 1; i <= d; i++ {
 			chain = append(chain, c13Block(chain[i-1].Hash(), uint64(2*i-1), i))
 		}
 		side := c13Block(chain[1].Hash(), uint64(chain[2].View()), 40) // equivocates with chain[2]
-		for local := 0; local < 1<<(d-1); local++ {                    // which of chain[1..d-1] are stored
+		certPairs := [][2]*hotstuff.Block{}
+		for _, x := range append(append([]*hotstuff.Block(nil), chain[1:]...), side) {
+			for _, y := range append(append([]*hotstuff.Block(nil), chain...), side) {
+				if x.QuorumCert().BlockHash() == y.Hash() {
+					certPairs = append(certPairs, [2]*hotstuff.Block{x, y})
+				}
+			}
+		}
+		for local := 0; local < 1<<(d-1); local++ { // which of chain[1..d-1] are stored
 			for avail := 0; avail < 1<<(d-1); avail++ { // which missing ones a peer has at first
 				if avail&local != 0 {
 					continue
 				}
 				for tipStored := 0; tipStored < 2; tipStored++ {
 					dp++
-					key := fmt.Sprintf("depth d=%d local=%d avail=%d tip=%d", d, local, avail, tipStored)
+					key := fmt.Sprintf("depth d=%d certs=%d local=%d avail=%d tip=%d", d, cv, local, avail, tipStored)
 					env.runCase("depth", key, true, dp%dpStride == 0, func(c *c13Case) {
 						for i := 1; i < d; i++ {
 							if local&(1<<(i-1)) != 0 {
@@ -1226,6 +1368,9 @@ func TestVerifC13(t *testing.T) {
 						c.Extends(chain[d], chain[0], fall) // retry: now everything can be fetched
 						c.Extends(chain[d], chain[1], nil)  // and stays
 						c.Extends(side, chain[2], nil)
+						for _, pr := range certPairs {
+							c.Extends(pr[0], pr[1], nil) // (block, block its certificate names)
+						}
 						c.Prune(chain[d], uint64(chain[d].View()))
 						c.Extends(chain[d], chain[0], nil)
 					})
@@ -1266,6 +1411,7 @@ func bitsSet(x int) int {
 // real filter in harness/network/c13_test.go. (liar=true is kept for experiments only.)
 func c13RandomProgram(c *c13Case, seed int64, liar bool) {
 	rng := newC13Rng(seed)
+	c13NewUniverse(uint64(seed))
 	nb := 3 + rng.Intn(8)
 	uni := []*hotstuff.Block{c.genesis}
 	for i := 1; i <= nb; i++ {
@@ -1348,7 +1494,15 @@ func c13RandomProgram(c *c13Case, seed int64, liar bool) {
 					fetch[b.Hash()] = b
 				}
 			}
-			c.Extends(pick(), pick(), fetch)
+			b, t := pick(), pick()
+			if rng.Intn(3) == 0 { // the pair (block, block its certificate names)
+				for _, x := range uni {
+					if x.Hash() == b.QuorumCert().BlockHash() {
+						t = x
+					}
+				}
+			}
+			c.Extends(b, t, fetch)
 		default:
 			if c.lied {
 				c.Store(pick())
@@ -1389,7 +1543,10 @@ func c13Edges(env *c13Env) {
 	g := hotstuff.GetGenesis()
 	const top = ^uint64(0)
 	run := func(name string, prog func(c *c13Case)) {
-		env.runCase("edge", "edge "+name, true, true, prog)
+		env.runCase("edge", "edge "+name, true, true, func(c *c13Case) {
+			c13NewUniverse(c13Tagged(name))
+			prog(c)
+		})
 	}
 	// the lead of DESIGN.md §8.6: equivocating block stored after the committed chain
 	run("equivocation-after", func(c *c13Case) {
